@@ -1,6 +1,7 @@
 package driver
 
 import (
+	"bytes"
 	"context"
 	"encoding/json"
 	"fmt"
@@ -27,6 +28,11 @@ type historyScn struct {
 	N    int   `json:"n"`    // number of RPCs
 	Par  int   `json:"par"`  // RPCs per wave
 	Seed int64 `json:"seed"` // workload seed
+	// Storm: every wave is Par unary echo calls released at the same instant,
+	// with distinct (optionally large) payloads; each caller checks that it got
+	// the reply to its own request (C01, C05).
+	Storm bool `json:"storm"`
+	Big   bool `json:"big"`
 }
 
 func init() { runners["history"] = runHistory }
@@ -72,19 +78,51 @@ func runHistory(t *testing.T, sc *Scenario, raw []byte) {
 		rng := rand.New(rand.NewSource(hs.Seed))
 		cc := rt.clis[1].cc
 		link := rt.clis[1].link
-		tok := 0
+		ntok := 0
 		for done := 0; done < hs.N; {
 			n := hs.Par
 			if hs.N-done < n {
 				n = hs.N - done
 			}
-			failopen := rng.Intn(12) == 0
+			failopen := !hs.Storm && rng.Intn(12) == 0
 			if failopen {
 				link.c2s.with(func() { link.c2s.werr = errInjected })
 			}
 			var fin atomic.Int64
-			for i := 0; i < n; i++ {
-				tok++
+			if hs.Storm {
+				gate := make(chan struct{})
+				for i := 0; i < n; i++ {
+					ntok++
+					size := 16
+					if hs.Big {
+						size = []int{1500, 2048, 8192, 65536}[rng.Intn(4)]
+					}
+					seed := rng.Uint64()
+					go func(c int) {
+						defer fin.Add(1)
+						req := payBytes(fmt.Sprintf("@%d:%d", size, seed%(1<<30)+1))
+						req = append([]byte(fmt.Sprintf("%08d|", c)), req...)
+						md := metadata.Pairs(tokenKey, fmt.Sprintf("%d", 1000000+c))
+						ctx := metadata.NewOutgoingContext(rt.root, md)
+						reply := new(wrapperspb.BytesValue)
+						m, _ := methodOf("unary")
+						<-gate
+						err := cc.Invoke(ctx, m, &wrapperspb.BytesValue{Value: req}, reply)
+						if err != nil || !bytes.Equal(reply.GetValue(), req) {
+							x := ev("Mismatch")
+							x.C, x.Pay, x.Msg = c, tok([]byte(reply.GetValue())), tok(req)
+							if err != nil {
+								x.Res = "err"
+							}
+							tr.emit(x)
+						}
+					}(ntok)
+				}
+				synctest.Wait()
+				close(gate)
+			}
+			for i := 0; i < n && !hs.Storm; i++ {
+				ntok++
 				kind := histKinds[rng.Intn(len(histKinds))]
 				out := histOutcomes[rng.Intn(len(histOutcomes))]
 				if failopen {
@@ -96,7 +134,7 @@ func runHistory(t *testing.T, sc *Scenario, raw []byte) {
 				go func(c int) {
 					defer fin.Add(1)
 					histRPC(rt, cc, c, kind, out, nmsg)
-				}(tok)
+				}(ntok)
 			}
 			// let the wave run; advance virtual time for deadlines
 			for k := 0; ; k++ {
